@@ -412,6 +412,43 @@ def _run_item(it):
     raise ValueError(op)
 
 
+# ------------------------------------------------------------------ np.random.seed / set_state seen from outside
+
+BRACKET_LOG = dict(active=False, events=[], lock=threading.Lock(), installed=False)
+
+
+def _install_bracket_log():
+    """Wrap the module attributes np.random.seed / np.random.set_state (what set_random_seed calls) so that,
+    while an item runs, every call is recorded with the calling thread and the seed."""
+    if BRACKET_LOG["installed"]:
+        return
+    orig_seed, orig_set = np.random.seed, np.random.set_state
+
+    def seed(*a, **kw):
+        if BRACKET_LOG["active"]:
+            s = a[0] if a else kw.get("seed")
+            with BRACKET_LOG["lock"]:
+                BRACKET_LOG["events"].append((threading.get_ident(), "enter", None if s is None else int(s)))
+        return orig_seed(*a, **kw)
+
+    def set_state(*a, **kw):
+        if BRACKET_LOG["active"]:
+            with BRACKET_LOG["lock"]:
+                BRACKET_LOG["events"].append((threading.get_ident(), "exit", None))
+        return orig_set(*a, **kw)
+
+    np.random.seed, np.random.set_state = seed, set_state
+    BRACKET_LOG.update(installed=True, orig_seed=orig_seed, orig_set=orig_set)
+
+
+def _bracket_trace():
+    tmap, out = {}, []
+    for tid, kind, s in BRACKET_LOG["events"]:
+        t = tmap.setdefault(tid, len(tmap))
+        out.append([t, kind, s])
+    return out
+
+
 # ------------------------------------------------------------------ running a list of items in THIS process
 
 
@@ -428,6 +465,7 @@ def run_segment(items, state=None):
     import verif_probes as vp
 
     raw = []
+    _install_bracket_log()
     if state is None:
         # start from a state that is not the state right after any np.random.seed(j) of the session
         np.random.seed(987654321)
@@ -444,10 +482,14 @@ def run_segment(items, state=None):
         elif op == "draws":
             top_draws = [float(np.random.random()).hex() for _ in range(int(it["k"]))]
         else:
+            BRACKET_LOG["events"] = []
+            BRACKET_LOG["active"] = True
             try:
                 res, aux = _run_item(it)
             except Exception as ex:  # noqa: BLE001
                 raised = type(ex).__name__
+            finally:
+                BRACKET_LOG["active"] = False
         post = state_hash()
         inner, draws = [], []
         for e in vp.TRACE:
@@ -458,11 +500,11 @@ def run_segment(items, state=None):
                 inner.append(e["after"])
         if op in ("seed", "draws"):
             raw.append(dict(run=False, pre=pre, inner=[], post=post, draws=top_draws, res=None, raised=False, err=None,
-                            aux=None))
+                            aux=None, trace=[]))
         else:
             key = f"{it.get('cfg')}|raised" if raised else f"{it.get('cfg')}|{res}"
             raw.append(dict(run=True, pre=pre, inner=inner, post=post, draws=draws, res=key,
-                            raised=bool(raised), err=raised, aux=aux))
+                            raised=bool(raised), err=raised, aux=aux, trace=_bracket_trace()))
     return raw, _state_to_json(np.random.get_state())
 
 
@@ -519,7 +561,7 @@ def handle(p):
 
     out = []
     for r in raw:
-        o = dict(run=r["run"], raised=r["raised"], err=r["err"], aux=r.get("aux"))
+        o = dict(run=r["run"], raised=r["raised"], err=r["err"], aux=r.get("aux"), trace=r.get("trace", []))
         o["pre"] = num(smap, r["pre"])
         o["inner"] = [num(smap, s) for s in r["inner"]]
         o["post"] = num(smap, r["post"])
